@@ -167,7 +167,54 @@ def _emit_attrs(items, ind, out):
             out.append('%s}' % t)
 
 
-def generate(seed, n_shapes, n_ashapes, dropped=None):
+def _bshape(rnd, idx):
+    """Statements around elements with handlers: if / else, switch, for; the same handler may
+    sit in alternative branches."""
+    budget = [rnd.randint(2, 8)]
+
+    def body(depth):
+        return [node(depth) for _ in range(rnd.choice([1, 1, 2, 2, 3]))]
+
+    def node(depth):
+        budget[0] -= 1
+        if depth >= 3 or budget[0] <= 0 or rnd.random() < 0.45:
+            return {'k': 'btn', 'ev': rnd.choice(EVENTS[:3]), 'i': rnd.randrange(2)}
+        k = rnd.choice(['if', 'if', 'switch', 'for'])
+        if k == 'if':
+            return {'k': 'if', 'i': rnd.randrange(3), 'then': body(depth + 1), 'else': body(depth + 1)}
+        if k == 'switch':
+            return {'k': 'switch', 'i': rnd.randrange(3), 'then': body(depth + 1), 'else': body(depth + 1)}
+        return {'k': 'for', 'body': body(depth + 1)}
+
+    return body(0)
+
+
+def _emit_b(nodes, ind, out):
+    t = '\t' * ind
+    for n in nodes:
+        k = n['k']
+        if k == 'btn':
+            out.append('%s<button data-b={ id } %s={ s[%d] } type="button">bsh</button>' % (t, n['ev'], n['i']))
+        elif k == 'if':
+            out.append('%sif c[%d] {' % (t, n['i']))
+            _emit_b(n['then'], ind + 1, out)
+            out.append('%s} else {' % t)
+            _emit_b(n['else'], ind + 1, out)
+            out.append('%s}' % t)
+        elif k == 'switch':
+            out.append('%sswitch c[%d] {' % (t, n['i']))
+            out.append('%s\tcase true:' % t)
+            _emit_b(n['then'], ind + 2, out)
+            out.append('%s\tdefault:' % t)
+            _emit_b(n['else'], ind + 2, out)
+            out.append('%s}' % t)
+        elif k == 'for':
+            out.append('%sfor i := 0; i < 2; i++ {' % t)
+            _emit_b(n['body'], ind + 1, out)
+            out.append('%s}' % t)
+
+
+def generate(seed, n_shapes, n_ashapes, dropped=None, n_bshapes=32):
     """Returns (templ source, registry Go source, json text). dropped = {'shapes': {i..}, 'ashapes': {i..}}:
     members to replace by a trivial body (their generated code did not compile)."""
     dropped = dropped or {'shapes': set(), 'ashapes': set()}
@@ -195,10 +242,23 @@ def generate(seed, n_shapes, n_ashapes, dropped=None):
         src.append('\t>ash</button>')
         src.append('}')
         src.append('')
+    bshapes = []
+    dropped.setdefault('bshapes', set())
+    for i in range(n_bshapes):
+        b = _bshape(rnd, i)
+        if i in dropped['bshapes']:
+            b = [{'k': 'btn', 'ev': 'onclick', 'i': 0}]
+        bshapes.append(b)
+        src.append('templ BShape%d(id string, s []templ.ComponentScript, c []bool) {' % i)
+        _emit_b(b, 1, src)
+        src.append('}')
+        src.append('')
     reg = ['package corpus', '', 'import (', '\t_ "embed"', '', '\t"github.com/a-h/templ"', ')', '',
            '//go:embed shapes.json', 'var ShapesJSON []byte', '',
            'var Shapes = []func(id string, p0, p1, p2 templ.Component, c []bool, h []*templ.OnceHandle) templ.Component{']
     reg += ['\tShape%d,' % i for i in range(n_shapes)] + ['}', '',
            'var AShapes = []func(id string, s []templ.ComponentScript, k []any, c []bool) templ.Component{']
-    reg += ['\tAShape%d,' % i for i in range(n_ashapes)] + ['}', '']
-    return '\n'.join(src), '\n'.join(reg), json.dumps({'seed': seed, 'shapes': shapes, 'ashapes': ashapes, 'dropped': {k: sorted(v) for k, v in dropped.items()}})
+    reg += ['\tAShape%d,' % i for i in range(n_ashapes)] + ['}', '',
+           'var BShapes = []func(id string, s []templ.ComponentScript, c []bool) templ.Component{']
+    reg += ['\tBShape%d,' % i for i in range(n_bshapes)] + ['}', '']
+    return '\n'.join(src), '\n'.join(reg), json.dumps({'seed': seed, 'shapes': shapes, 'ashapes': ashapes, 'bshapes': bshapes, 'dropped': {k: sorted(v) for k, v in dropped.items()}})
